@@ -220,7 +220,8 @@ def rule_node_order(chk, prog):
 
 def rule_cost(chk, prog):
     r = chk.rule("COST-FORM", "decision table of cost(lineRef, dist, v2, v3, prev): all penalties 0 -> exactly dist; only segmentPenalty P>0 -> "
-                 "dist + 0/1/2 * P for a straight / bent / doubled-back continuation (angle classes), dist for the first segment", floor=3)
+                 "dist + 0/1/2 * P for a straight / bent / doubled-back continuation (angle classes), dist for the first segment; with an angle "
+                 "penalty set as well, the cost of an ORTHOGONAL step does not depend on it", floor=4)
     fn = prog.fn("Avoid::cost")
     rp = prog.enums.get("Avoid::RoutingParameter")
     ct = prog.enums.get("Avoid::ConnType")
@@ -309,6 +310,24 @@ def rule_cost(chk, prog):
         if kind_name == "ConnType_Orthogonal" and seen_k != {0, 1, 2}:
             bad = bad or "angle classes reached: %s (expected straight, bend, double-back)" % sorted(seen_k)
         (r.bad if bad else r.ok)("%s/segment-penalty" % kind_name, fn.where(), bad or "classes %s" % sorted(seen_k))
+        # --- segment and angle penalty together: the angle penalty is a polyline notion (orthogonal bends are all 90 degrees and are
+        # already charged the segment penalty): an orthogonal route's cost must not depend on it
+        if kind_name == "ConnType_Orthogonal":
+            Q = Poly.var("Q")
+            params = {RP["segmentPenalty"]: P, RP["anglePenalty"]: Q}
+            bad = None
+            n_rows = 0
+            prev = Obj("Avoid::ANode", {"inf": vert("p1"), "prevNode": None, "g": 0, "h": 0, "f": 0, "timeStamp": 0})
+            rows = tree(prog, fn, [line, D, vert("p2"), vert("p3"), prev], hooks=mk_hooks(params, kind, False))
+            for val, descr, out in rows:
+                n_rows += 1
+                if out[0] != "ret":
+                    continue
+                if to_poly(out[1]).vars() & {"Q", "LOG10"}:
+                    bad = bad or "cost() of an orthogonal step = %r depends on the angle penalty: the search then minimises another cost than " \
+                                 "length + segmentPenalty * bends" % (out[1],)
+            r.count(n_rows)
+            (r.bad if bad else r.ok)("%s/angle-penalty-ignored" % kind_name, fn.where(), bad or "%d paths" % n_rows)
 
 
 def rule_angle_exact(chk, prog):
